@@ -116,6 +116,19 @@ def random_case(rng, task, n_vocab=None, n_clips=None):
                         b = (b[0] + 500.0, b[1] + 500.0, b[2], b[3])
                 g = None if how == "geomless" else geoms.geom_in_box(rng, rng.choice(["BoundingBox", "BoundingBox", "TimeInterval", "Polygon"]), *b)
                 clip["events"].append({"kind": "pred", "geom": g, "pred_tags": _pred_tags(rng, vocab, pool), "pred_score": rng.choice([0.25, 0.5, 1.0])})
+            if rng.random() < 0.25:
+                # "covers": a long annotation over two short predictions and a long prediction over two short
+                # annotations, seconds apart: everything overlaps something, no complete overlapping pairing
+                base = t + 20.0
+                box = lambda a, b: {"type": "BoundingBox", "coordinates": [a, 1000.0, b, 3000.0]}
+                clip["events"] += [
+                    {"kind": "ann", "geom": box(base, base + 6.0), "ann_tags": _true_tags(rng, vocab, pool)},
+                    {"kind": "pred", "geom": box(base + 0.5, base + 1.5), "pred_tags": _pred_tags(rng, vocab, pool), "pred_score": 0.5},
+                    {"kind": "pred", "geom": box(base + 3.0, base + 4.0), "pred_tags": _pred_tags(rng, vocab, pool), "pred_score": 0.5},
+                    {"kind": "pred", "geom": box(base + 20.0, base + 26.0), "pred_tags": _pred_tags(rng, vocab, pool), "pred_score": 0.5},
+                    {"kind": "ann", "geom": box(base + 20.5, base + 21.5), "ann_tags": _true_tags(rng, vocab, pool)},
+                    {"kind": "ann", "geom": box(base + 23.0, base + 24.0), "ann_tags": _true_tags(rng, vocab, pool)},
+                ]
             rng.shuffle(clip["events"])
         clips.append(clip)
     if not any(c["only"] == "both" for c in clips):
